@@ -31,6 +31,7 @@ func c08(c *Ctx) {
 	c.memoKeysDetermine("C08.R9", pkg, 4)
 	c08adapters(c)
 	c08rangeFunnel(c, pkg)
+	c08nullElements(c, pkg)
 	if os.Getenv("GZV_MEMO_SCAN") != "" {
 		for _, pk := range c.P.Pkgs {
 			c.memoKeysDetermine("SCAN", strings.TrimPrefix(pk.PkgPath, mod), 0)
